@@ -6,8 +6,8 @@ CONSTANTS
   HCap = 64
   Parts = 1
   WsMode = TRUE
-  MaxPub = 5
-  MaxRead = 3
+  MaxPub = 4
+  MaxRead = 2
   MaxStall = 2
   MaxSweep = 2
   MaxLeave = 0
